@@ -88,3 +88,26 @@ V('C08', 'neg-swap-tx-session-arms', C, D,
             enums.Capability.TRANSACTION,
         )
 ''', None)
+
+V('C08', 'pointer-volatility-replaces-source', 'edb/edgeql/compiler/inference/volatility.py', 'edb.edgeql.compiler.inference.volatility._infer_pointer',
+  '''    vol = _infer_volatility(ir.source, env)
+    # If there's an expression on an rptr, and it comes from
+    # the schema, we need to actually infer it, since it won't
+    # have been processed at a shape declaration.
+    if ir.expr is not None and not ir.ptrref.defined_here:
+        vol = _max_volatility((
+            vol,
+            _infer_volatility(ir.expr, env),
+        ))
+''', '''    if ir.expr is not None and not ir.ptrref.defined_here:
+        vol = _infer_volatility(ir.expr, env)
+    else:
+        vol = _infer_volatility(ir.source, env)
+''', 'C08.R5', '_infer_pointer:source')
+V('C08', 'alter-volatility-keeps-compiled-body', 'edb/schema/functions.py', 'edb.schema.functions.FunctionCommand.canonicalize_attributes',
+  '''            self.set_attribute_value(
+                'nativecode',
+                nativecode.not_compiled()
+            )''', '''            self.set_attribute_value('nativecode', nativecode)''', 'C08.R5', 'body-recompiled')
+V('C08', 'abort-rewrite-loses-tx-action', 'edb/server/compiler/ddl.py', 'edb.server.compiler.ddl._abort_migration_rewrite',
+  '        tx_action = tx_query.action\n', '        tx_action = None\n', 'C08.R5', '_abort_migration_rewrite:tx_action-forwarded')
